@@ -12,17 +12,17 @@ CLAIMED = {
     "C02": dict(
         level="exploration", design="§6 C02",
         technique="deterministic simulation of the byte source: Request::from_stream over a scripted reader whose read-size plan (every split point, bytewise, random chunkings, EINTR) is the schedule; reference request model as oracle; serialise-parse round trip",
-        text="Generated well-formed request models (methods, paths, queries, 0..60 headers with repeated names in random case, UTF-8 values, Cookie and X-Forwarded-For lists, bodies to 64 KiB, lines over 8 KiB) parsed under every two-chunk split of messages <= 2 KiB plus bytewise/random/EINTR plans; parsed fields must equal the model under every plan and survive serialise+parse. Split points of each sampled message are enumerated; models are sampled. Later additions: the colon of a header line followed by one space / nothing / a tab / two spaces, header names in random per-letter case, get_cookie looked up for every name, suffix, embedded k= and an absent name on cookie lists with overlapping names and values. Also: X-Forwarded-For chains of 31..200 entries.",
+        text="Generated well-formed request models (methods, paths, queries, 0..60 headers with repeated names in random case, UTF-8 values, Cookie and X-Forwarded-For lists, bodies to 64 KiB, lines over 8 KiB) parsed under every two-chunk split of messages <= 2 KiB plus bytewise/random/EINTR plans; parsed fields must equal the model under every plan and survive serialise+parse. Split points of each sampled message are enumerated; models are sampled. Later additions: the colon of a header line followed by one space / nothing / a tab / two spaces, header names in random per-letter case, get_cookie looked up for every name, suffix, embedded k= and an absent name on cookie lists with overlapping names and values. Also: X-Forwarded-For chains of 31..200 entries. Also: repeated addresses in X-Forwarded-For.",
         note="Trusted: the reference model/renderer; sync parser and (twin phase C02T) the async parser over a scripted AsyncRead; at most one Cookie / X-Forwarded-For field per request."),
     "C03": dict(
         level="fault_enumeration", design="§6 C03",
         technique="fault injection at the parsers' byte sources (scripted reader, simulated socket, real include files): EOF/reset at every offset, every single-byte substitution and bit flip, delimiter deletion/doubling, boundary and huge length fields, UTF-8 at every slicing position, deep nesting; isolated worker processes with a counting allocator, 2 MiB stacks, read budgets and a watchdog",
-        text="For each target (request, response, frame, WebSocket message blocking/non-blocking, JSON, config+include) and each seed message every truncation offset and every single-byte mutant of the families is enumerated and delivered whole and bytewise; oracle: returns Ok/Err (no panic, abort, SIGSEGV), terminates within a read budget/watchdog, peak heap <= 64 KiB + 8x (512x for tree-building parsers) the bytes supplied. Seeds and multi-edit mutants are sampled. Later additions: every contiguous span of 1..24 bytes deleted at every offset; 96 generated seed messages per target in the thorough tier.",
+        text="For each target (request, response, frame, WebSocket message blocking/non-blocking, JSON, config+include) and each seed message every truncation offset and every single-byte mutant of the families is enumerated and delivered whole and bytewise; oracle: returns Ok/Err (no panic, abort, SIGSEGV), terminates within a read budget/watchdog, peak heap <= 64 KiB + 8x (512x for tree-building parsers) the bytes supplied. Seeds and multi-edit mutants are sampled. Later additions: every contiguous span of 1..24 bytes deleted at every offset; 96 generated seed messages per target in the thorough tier. Also: runs of 1000..100000 empty control frames in front of a data frame.",
         note="Trusted: the counting allocator and the announce protocol that attributes a dead worker to a case; Value::parse has no I/O seam (its share is plain input generation); the 256 MiB single-allocation ceiling stands in for real memory exhaustion."),
     "C09": dict(
         level="fault_enumeration", design="§6 C09",
         technique="deterministic simulation with network fault injection: real proxy_request / proxy_handler against a scripted upstream on humsim's TCP (cut at every byte by FIN and RST, garbage, refuse, black-holed SYN, silence, accept-close, stall, late-stall, trickle), virtual-time deadline, real EqMutex<LoadBalancer> under seeded schedules",
-        text="For each generated valid upstream response (39 status codes; Content-Length / chunked / close-delimited / body-less) every byte offset is cut once by FIN and once by RST; plus the other fault behaviours and valid responses from closing and keep-alive upstreams, through proxy_request and through the server's proxy_handler. Oracle: returns within timeout + 100 ms + 10% of virtual time, never panics, valid response relayed (status, header multiset, body; chunked re-expressed as Content-Length), any fault gives 502, the upstream receives the request unchanged except stripped prefix and one added X-Forwarded-For, round-robin strictly in lock order. Later additions: late-stall upstreams; route patterns /api/*, /*, /a/b/*, /api* with the literal prefix once, twice, three times, alone or again later in the path; 1..8 concurrent requests through the real proxy_handler with uses per target compared with strict rotation; framing header spellings as in C07. Also: a slow-reader upstream (16-byte receive window drained every 30..90% of the timeout, or never) so that the proxy's writes block.",
+        text="For each generated valid upstream response (39 status codes; Content-Length / chunked / close-delimited / body-less) every byte offset is cut once by FIN and once by RST; plus the other fault behaviours and valid responses from closing and keep-alive upstreams, through proxy_request and through the server's proxy_handler. Oracle: returns within timeout + 100 ms + 10% of virtual time, never panics, valid response relayed (status, header multiset, body; chunked re-expressed as Content-Length), any fault gives 502, the upstream receives the request unchanged except stripped prefix and one added X-Forwarded-For, round-robin strictly in lock order. Later additions: late-stall upstreams; route patterns /api/*, /*, /a/b/*, /api* with the literal prefix once, twice, three times, alone or again later in the path; 1..8 concurrent requests through the real proxy_handler with uses per target compared with strict rotation; framing header spellings as in C07. Also: a slow-reader upstream (16-byte receive window drained every 30..90% of the timeout, or never) so that the proxy's writes block. Also: legal spellings of responses (trailers, chunk extensions, coding-name case, trailing whitespace, 304 with Content-Length).",
         note="Trusted: humsim TCP model (network RTT is small relative to the timeout: slowness is the upstream script's); reference request/response models; epochs 1970..2096."),
     "C10": dict(
         level="fault_enumeration", design="§6 C10",
@@ -37,17 +37,17 @@ CLAIMED = {
     "C12": dict(
         level="exploration", design="§6 C12",
         technique="deterministic simulation: the real AsyncWebsocketApp::run (poll loop, handler pool, front App, linked and unlinked) under the humsim scheduler with reference WebSocket clients, virtual-time poll intervals and heartbeat timeouts, partitioned (silent) peers, an external AsyncSender thread, shutdown signal",
-        text="Seeded scenarios of 1..8 clients (connect times, plain/unicast-requesting/broadcast-requesting messages incl. fragmented ones and bursts within one poll interval, pings, endings by Close / FIN / silence / staying), external unicasts and broadcasts, handler pools 1..8, poll 1..10 ms, heartbeat on/off, under seeded schedules. Oracle over the handler event log and each client's received frames: connect exactly once, every owed message dispatched exactly once, disconnect exactly once per closed client (Close frame or heartbeat timeout) and never for a live one, per-client order with a one-thread pool, unicast only to its addressee, broadcast never twice and exactly once to clients connected throughout, run returns within poll interval + 1 s of the shutdown signal. Later additions: no poll interval at all (fair schedules only), heartbeat timeouts of 1.5x and 2x the interval, slow-reading clients with 3..60 KB external messages, clients that close their socket outright (server writes then fail), a close landing on the heartbeat deadline, client pairs sharing an IP, per-run iteration order of the streams map.",
+        text="Seeded scenarios of 1..8 clients (connect times, plain/unicast-requesting/broadcast-requesting messages incl. fragmented ones and bursts within one poll interval, pings, endings by Close / FIN / silence / staying), external unicasts and broadcasts, handler pools 1..8, poll 1..10 ms, heartbeat on/off, under seeded schedules. Oracle over the handler event log and each client's received frames: connect exactly once, every owed message dispatched exactly once, disconnect exactly once per closed client (Close frame or heartbeat timeout) and never for a live one, per-client order with a one-thread pool, unicast only to its addressee, broadcast never twice and exactly once to clients connected throughout, run returns within poll interval + 1 s of the shutdown signal. Later additions: no poll interval at all (fair schedules only), heartbeat timeouts of 1.5x and 2x the interval, slow-reading clients with 3..60 KB external messages, clients that close their socket outright (server writes then fail), a close landing on the heartbeat deadline, client pairs sharing an IP, per-run iteration order of the streams map. Also: a burst of 1200 messages in one write under a tight heartbeat.",
         note="Trusted: humsim scheduler/clock/TCP; iteration order of the streams map keyed per run from the entropy stream; a spinning poll loop (no interval) only under fair schedules; ordering asserted strictly only with one handler thread; messages of a client that closed its socket outright are owed at most once."),
     "C16": dict(
         level="exploration", design="§6 C16",
         technique="deterministic simulation: 1..8 threads through the real RwLock<Cache> under the humsim scheduler with a virtual wall clock (jumps onto second boundaries and age limits); linearisation by in-lock sequence numbers; reference model = the property; handler level over real files",
-        text="Seeded histories of set/get/sweep/clock-advance through the real Cache behind the hooked RwLock, checked in lock order against a model that only knows the property (latest bytes+MIME for the same (host,path), never older than the limit, retrievable total <= size limit, hit right after an in-limit store); one case in eight drives the real file/directory handlers with files rewritten between requests. Later additions (handler level): two directory routes with equal relative file names and an index file each, and a file route whose uri equals a relative name; sizes at the limit and limit-1 favoured. Also: the handler-level part runs 1..6 concurrent threads and sweeps every (uri, host) under one read lock, adding up the retrievable sizes.",
+        text="Seeded histories of set/get/sweep/clock-advance through the real Cache behind the hooked RwLock, checked in lock order against a model that only knows the property (latest bytes+MIME for the same (host,path), never older than the limit, retrievable total <= size limit, hit right after an in-limit store); one case in eight drives the real file/directory handlers with files rewritten between requests. Later additions (handler level): two directory routes with equal relative file names and an index file each, and a file route whose uri equals a relative name; sizes at the limit and limit-1 favoured. Also: the handler-level part runs 1..6 concurrent threads and sweeps every (uri, host) under one read lock, adding up the retrievable sizes. Also: keys that differ only in letter case.",
         note="Trusted: humsim RwLock/clock; forward clock jumps only; with several threads handler-level staleness is not bounded (read-then-store is not atomic), only foreign bytes/wrong type are checked there."),
     "C17": dict(
         level="exploration", design="§6 C17",
         technique="deterministic simulation with a virtual wall clock under humphrey-auth's session expiry (clock moved to expiry-1s / expiry / expiry+1s), real Argon2/OsRng, auth-route requests over the simulated network, reference session model checked after every step",
-        text="Seeded histories of up to 60 operations over 1..5 users (create/remove user, verify right/wrong/other/unknown, create session default/0/long, refresh, invalidate by token/user, get_uid_by_token, authenticated route with valid/stale/absent cookie, clock advances onto expiry boundaries), with and without pepper, every return value compared with a reference model; tokens must be 64 hex digits and never repeat. Later additions: the empty password, a prefix and another case of the right password for live, removed, unknown and empty uids; never-issued near misses of real tokens (upper case, prefix, trailing space, empty); uids, salts and tokens drawn from the run's entropy stream. Also: peppers of 7/32/64/~100 bytes; long prefix-sharing, boundary-length and non-ASCII passwords.",
+        text="Seeded histories of up to 60 operations over 1..5 users (create/remove user, verify right/wrong/other/unknown, create session default/0/long, refresh, invalidate by token/user, get_uid_by_token, authenticated route with valid/stale/absent cookie, clock advances onto expiry boundaries), with and without pepper, every return value compared with a reference model; tokens must be 64 hex digits and never repeat. Later additions: the empty password, a prefix and another case of the right password for live, removed, unknown and empty uids; never-issued near misses of real tokens (upper case, prefix, trailing space, empty); uids, salts and tokens drawn from the run's entropy stream. Also: peppers of 7/32/64/~100 bytes; long prefix-sharing, boundary-length and non-ASCII passwords. Also: 40 sessions in a row.",
         note="Trusted: the two hooks in humphrey-auth (UNIX_EPOCH.elapsed -> virtual wall clock; OsRng and Uuid::new_v4 -> the run's entropy stream); single driver thread (the property quantifies over histories)."),
     "C04": dict(
         level="exploration", design="§6 C04",
@@ -57,7 +57,7 @@ CLAIMED = {
     "C07": dict(
         level="exploration", design="§6 C07",
         technique="deterministic simulation: (a) Response serialisation checked by a strict reference grammar and parsed back over a scripted reader (every split point); (b)(c) the real Client inside the simulator against scripted conforming servers on port 80 of simulated hosts, all chunk compositions for bodies <= 6 bytes, stream segmentations, redirect chains across hosts",
-        text="All 63 compositions x 2 hex cases of chunked bodies up to 6 bytes are enumerated against the real Client; seeded cases cover responses over all 39 status codes / 0..40 headers / Set-Cookie attribute subsets / bodies to 64 KiB (serialise, strict grammar, parse back under every split point of messages <= 600 bytes), the Client against Content-Length / chunked / close-delimited / body-less responses from closing and keep-alive servers under segmentation, and redirect chains 0..5 over {301,302,307} with relative and absolute Location across 4 simulated hosts. Later additions: framing header names in four spellings and four colon separators in the scripted servers; a client that needs 25 virtual s or more against a keep-alive server holding the connection for 30 s is flagged. Also: half of the client cases attach 1..3 cookies and the first host is session-keyed (a followed same-host hop lacking a cookie pair of the first request gets 403).",
+        text="All 63 compositions x 2 hex cases of chunked bodies up to 6 bytes are enumerated against the real Client; seeded cases cover responses over all 39 status codes / 0..40 headers / Set-Cookie attribute subsets / bodies to 64 KiB (serialise, strict grammar, parse back under every split point of messages <= 600 bytes), the Client against Content-Length / chunked / close-delimited / body-less responses from closing and keep-alive servers under segmentation, and redirect chains 0..5 over {301,302,307} with relative and absolute Location across 4 simulated hosts. Later additions: framing header names in four spellings and four colon separators in the scripted servers; a client that needs 25 virtual s or more against a keep-alive server holding the connection for 30 s is flagged. Also: half of the client cases attach 1..3 cookies and the first host is session-keyed (a followed same-host hop lacking a cookie pair of the first request gets 403). Also: the legal response spellings shared with C09.",
         note="Trusted: reference grammar/servers; RFC 2616 reason phrases accepted for 413/414/416; servers key on the path (query ignored)."),
     "C08": dict(
         level="exploration", design="§6 C08",
